@@ -17,9 +17,6 @@ RULE = ("generated schemas (objects, interfaces incl. interface-implements-inter
 
 # known-finding classification: narrow keys, decided from the failing rule families of the document Go
 # effectively validates (erules), the mutation operator label, Go's stage / family / message
-COMPOSITE = re.compile(r"^(merge-witness/|)(conflict-different-(args|names)/composite|composite-fields)")
-ENUM = re.compile(r"(^enum-vs|/E\d?-vs-|-vs-E\d?$)")
-NESTED_VAR = re.compile(r"^(var-incompatible-type/[^/]*/(list|obj)|nullable-variable-in-non-null-item|list-variable-in-item-position)")
 
 
 def fields_of(detail):
@@ -43,48 +40,30 @@ def classify(case, detail):
     f = fields_of(detail)
     if f is None:
         return None
+    # repaired in /repo (work/c04_fix_*.patch) and therefore no longer mapped -- a regression is a VIOLATION:
+    #   args-order-sensitive, typename-excluded-from-merging, enum-fields-not-compared, composite-fields-not-compared,
+    #   leaf-vs-composite-not-compared, requirement-dropped-after-kind-mismatch, variable-default-not-const,
+    #   nested-variable-type-unchecked, nested-variable-location-default-ignored, union-fragment-in-union-rejected,
+    #   duplicate-fragment-name-ignored
     if f["go"] == "accept" and f["spec"] == "invalid":
         if f["eff"] == "explains:static-skip":
             return "static-skip-hides-errors"
         if f["eff"] == "explains:fragdef-dirs":
             return "fragment-definition-directives-unvalidated"
-        if "frag-unique" in f["erules"] or "frag-unique" in f["rules"]:
-            # which of the two definitions is used differs; every other complaint is a consequence
-            return "duplicate-fragment-name-ignored"
         keys = []
         for r in f["erules"]:
             k = None
-            if r == "var-default-const":
-                k = "variable-default-not-const"
-            elif r == "frag-unique":
-                k = "duplicate-fragment-name-ignored"
-            elif r == "merge" and "/typename" in f["op"]:
-                k = "typename-excluded-from-merging"
-            elif r == "merge" and "interface-vs-unrelated-object" in f["op"]:
+            if r == "merge" and "interface-vs-unrelated-object" in f["op"]:
                 k = "interface-vs-unrelated-object-not-compared"
-            elif r == "merge" and ENUM.search(f["op"]):
-                k = "enum-fields-not-compared"
-            elif r == "merge" and (COMPOSITE.search(f["op"]) or "composite-conflict" in detail):
-                k = "composite-fields-not-compared"
-            elif r == "var-position" and NESTED_VAR.search(f["op"]):
-                k = "nested-variable-type-unchecked"
             if k is None:
                 return None
             keys.append(k)
         return keys[0] if keys else None
     if f["go"] == "reject" and f["spec"] == "valid" and f["stage"] == "validate":
-        if f["family"] == "fields-conflict" and "differing fields for objectName" in msg and "reordered-arguments" in detail:
-            return "args-order-sensitive"
         if f["family"] == "directive-location" and "not allowed on node of kind: INLINE_FRAGMENT" in msg:
             return "spread-directive-relocated"
-        if f["family"] == "variable-type" and re.search(r'of type "([^"]+)" used in position expecting type "\1!"', msg):
-            return "nested-variable-location-default-ignored"
-        if f["family"] == "null-value" and re.search(r'Expected value of type "[^"]+!", found null', msg) and " = null" in unq(case):
-            return "nested-variable-location-default-ignored"
         if f["family"] == "fragment-spread-impossible" and "covariant-narrowing" in detail:
             return "flattened-interface-fragment-narrows-field-type"
-        if f["family"] == "fragment-cycle":
-            return "union-fragment-in-union-rejected"
     return None
 
 
